@@ -53,6 +53,8 @@ pub struct Config {
 	pub verif_dir: PathBuf,
 	pub repo_dir: PathBuf,
 	pub scale: f64,
+	/// Divisor applied to the budgets in sanitizer passes (Miri ~ 4000, ASan ~ 20).
+	pub san_div: f64,
 }
 
 impl Config {
@@ -60,7 +62,7 @@ impl Config {
 		let b = self.tier.pick(quick, thorough) as f64 * self.scale;
 		if self.san {
 			// sanitizer passes get the reduced workloads
-			((b / 2000.0) as u64).max(50)
+			((b / self.san_div) as u64).max(20)
 		} else {
 			(b as u64).max(1)
 		}
